@@ -817,4 +817,95 @@ def caseNames (n : Nat) (counts : List Nat) : List String :=
   (List.range n).map (fun i => "vc" ++ toString i) ++
   ((List.range counts.length).zip counts).flatMap fun jc => (caseSpellings.take jc.2).map fun w => toString jc.1 ++ "/" ++ w
 
+/-! ## 7. seventh round: a history of Apps with their own loggers and ONE `syslog.Pref` prefix; Range against Delete
+
+    (a) `plog`: `syslog.Pref(p)` (syslog/log.go:57-62) is ONE `prefCache.LoadOrStoreFn(p, func() Logger { return _logger.Pref(p) })`
+        on a package-level sync2.Map — a cache that lives as long as the process. g callers of one prefix while the root
+        logger is `root` are g calls `loadOrStoreFn 1 root` of the map model of section 3 (the prefix is key 1; a logger is
+        identified by the root it was derived from — App i installs root i through app.SetLogger → syslog.SetLogger, which
+        assigns `_logger` and nothing else). `Pref` looks at `_logger` only inside the value function, i.e. only when the
+        prefix is not cached yet: the logger derived by the FIRST App that used the prefix is what every later App is handed,
+        whatever root it installed (`plogObs`; proved for every number of callers and schedule: C20_pref_cached_logger_kept).
+    (b) what refreshing the shared cache entry IN PLACE would do (`RPc`, `refreshStep`): an entry {root, logger}; a caller
+        that finds `entry.root ≠ root` writes `entry.root := root`, then `entry.logger := derive root`, and returns
+        `entry.logger`. Two callers of one phase are handed two different loggers on some schedule
+        (C20_pref_refresh_in_place_counterexample).
+    (c) `rdel`: Range (one atomic visit per key, section 3) against a thread that stores and deletes a third key. -/
+
+/-- g callers of syslog.Pref(prefix) while the root logger is `root` -/
+def prefQueues (g root : Nat) : Nat → List Op := fun t => if t < g then [Op.loadOrStoreFn 1 root] else []
+
+def insertAsc (x : Nat) : List Nat → List Nat
+  | [] => [x]
+  | y :: r => if x < y then x :: y :: r else if x = y then y :: r else y :: insertAsc x r
+
+/-- ascending, without duplicates -/
+def sortDedup (l : List Nat) : List Nat := l.foldr insertAsc []
+
+/-- one parallel phase (all callers past the Load before the first LoadOrStore, as after a barrier): the cache before →
+    (the cache after, the roots of the loggers handed out) -/
+def prefPhase (cache : MapSt) (g root : Nat) : MapSt × List Nat :=
+  let s := run factProgs (Sys.start cache (prefQueues g root)) (gmorSched g)
+  (s.map, sortDedup (gotVals s.hist))
+
+def showTo (l : List Nat) : String := if l.isEmpty then "none" else "+".intercalate (l.map toString)
+
+/-- `plog apps n nc first flags`: Apps 1..apps one after the other, App i under root logger i; from App `first` on the scan
+    phase (flags bit 0: n + nc callers) and the closing phase (flags bit 1: nc callers) ask for the prefix logger.
+    Result: per App, the loggers that received the lines of its scan / of its Close (`-` = nothing written). -/
+def plogObs (apps n nc first flags : Nat) : List String × List String :=
+  let scanLogs := flags % 2 == 1
+  let closeLogs := flags / 2 % 2 == 1 && decide (0 < nc)
+  let step := fun (acc : MapSt × List String × List String) (i : Nat) =>
+    let on := decide (first ≤ i)
+    let r1 := if on && scanLogs then (let r := prefPhase acc.1 (n + nc) i; (r.1, showTo r.2)) else (acc.1, "-")
+    let r2 := if on && closeLogs then (let r := prefPhase r1.1 nc i; (r.1, showTo r.2)) else (r1.1, "-")
+    (r2.1, acc.2.1 ++ [r1.2], acc.2.2 ++ [r2.2])
+  let r := ((List.range apps).map (· + 1)).foldl step (emptyMap, [], [])
+  r.2
+
+/-- (b) in-place refresh of a shared cache entry: program counter of one caller -/
+inductive RPc
+  | start | stale | wroteRoot | done (logger : Nat)
+deriving DecidableEq, Repr
+
+structure PrefEntry where
+  root : Nat
+  logger : Nat
+deriving DecidableEq, Repr
+
+/-- one step of a caller that read the current root `root`:
+    `if p.root != root { p.root = root; p.logger = root.Pref(pref) }; return p.logger` -/
+def refreshStep (root : Nat) (e : PrefEntry) : RPc → PrefEntry × RPc
+  | .start => if e.root != root then (e, .stale) else (e, .done e.logger)
+  | .stale => ({ e with root := root }, .wroteRoot)
+  | .wroteRoot => ({ e with logger := root }, .done root)
+  | .done l => (e, .done l)
+
+def refreshRun (root : Nat) : List Nat → PrefEntry × (Nat → RPc) → PrefEntry × (Nat → RPc)
+  | [], s => s
+  | t :: r, s => let x := refreshStep root s.1 (s.2 t); refreshRun root r (x.1, upd s.2 t x.2)
+
+/-- (c) thread 0 stores and deletes key 3 `rounds` times (values 10, 11, …), threads 1..g enumerate twice each -/
+def rdelQueues (g rounds : Nat) : Nat → List Op := fun t =>
+  if t = 0 then (List.range rounds).flatMap fun r => [Op.store 3 (10 + r), Op.delete 3]
+  else if t ≤ g then [Op.range [1, 2, 3], Op.range [3, 1, 2]] else []
+
+/-- round robin over the g+1 threads, long enough for every queue to drain -/
+def rdelSched (g rounds : Nat) : List Nat := (List.range (4 * rounds + 12)).flatMap fun _ => List.range (g + 1)
+
+def rdelStored (rounds : Nat) (kv : Nat × Nat) : Bool :=
+  ((kv.1 == 1 || kv.1 == 2) && kv.2 == 1) || (kv.1 == 3 && decide (10 ≤ kv.2) && decide (kv.2 < 10 + rounds))
+
+/-- (Ranges that reported a pair nobody stored, Ranges that reported a key twice, Ranges that missed a permanent key) -/
+def rdelObs (g rounds : Nat) : Nat × Nat × Nat :=
+  let g := min g 4
+  let rounds := min rounds 3
+  let m0 : MapSt := fun k => if k = 1 ∨ k = 2 then some 1 else none
+  let s := run factProgs (Sys.start m0 (rdelQueues g rounds)) (rdelSched g rounds)
+  let seens := s.hist.filterMap fun e => match e.2.2 with | .seen l => some l | _ => none
+  ((seens.filter fun l => !(l.all (rdelStored rounds))).length,
+   (seens.filter fun l => (l.map (·.1)).eraseDups.length != l.length).length,
+   (seens.filter fun l => !((l.map (·.1)).contains 1 && (l.map (·.1)).contains 2)).length + (2 * g - seens.length))
+
 end Ioc.Conc
